@@ -92,7 +92,7 @@ PROPS = {
         **tiers(3000, 100, 60000, 1200)),
     "C06": dict(
         jobs=[dict(harness="c06_locks", variant="a", weight=3), dict(harness="c06_locks", variant="n", weight=2),
-              dict(harness="c05_barrier", variant="n", weight=1)],
+              dict(harness="c05_barrier", variant="n", weight=1)] + loop_jobs([1, 2], variants=("n",)),
         components=comp(), expected_probes=["region_fast", "region_sleep", "try_lock_failed", "ptrlock_cas_ok"],
         design_ref="3.6",
         level_text="Seeded exploration of lock/try_lock/unlock interleavings of SimpleLock, PaddedLock, PtrLock (all unlock variants, CAS, setValue) and ThreadRWlock with a "
@@ -132,6 +132,16 @@ PROPS = {
                    "from several threads (1B..1MB, constructed free-list/'change' scenario), largeMalloc*/LargeArray, and the per-iteration allocator inside for_each (pia instantiations of the loop harness). "
                    "Oracle: shadow interval map (non-null, size, alignment, disjoint from all live blocks) + canaries verified at free and at the end. Faults: huge-page refusal, spurious weak-CAS failure.",
         level_note="Sampling over seeds. Requests stay inside the 2MB per-thread-storage capacity model (exceeding it is a designed GALOIS_DIE). Page alignment is checked against the simulated mmap, which places 2MB-multiples on 2MB boundaries.",
+        **tiers(6000, 120, 150000, 1500)),
+    "C10": dict(
+        jobs=[dict(harness="c10_morph", variant="a", weight=2), dict(harness="c10_morph", variant="n", weight=1)],
+        components=comp(), expected_probes=["mutations"],
+        design_ref="3.10",
+        level_text="Seeded exploration of for_each over generated mutation items (addEdge with duplicate check, addMultiEdge, removeEdge, findEdge/findEdgeSortedByDst, node/edge data updates, "
+                   "sortEdgesByDst, removeNode, addNode) on overlapping node sets for five MorphGraph flavours (directed, in/out, undirected, sorted neighbours, no-lockable with harness locks). "
+                   "Oracle: serial replay of the commit log on a fresh graph of the same type -> identical structural dump and identical observed results; structural invariants "
+                   "(reverse entries, shared data cell, no dangling edge, sortedness, iteration exactly once).",
+        level_note="Sampling over seeds. Items are cautious at operator level (all touched nodes acquired first); removed nodes are never re-added.",
         **tiers(6000, 120, 150000, 1500)),
 }
 
